@@ -46,3 +46,12 @@ Example C04_nonvacuous :
   let '(m, tr, ok) := send_loop c n (gen_events_h c [] n ∅) ∅ [1%nat] 0 in
   ok = false /\ length tr = 3%nat.
 Proof. vm_compute. split; reflexivity. Qed.
+
+(** ** tie to the source text (Generated/Facts.v): inside the pass loop the call order is
+    msgbus.send, then dm.commit_one - the order the model's action trace uses *)
+From Hermes Require Import Proofs.FactsTieServer.
+Theorem C04_send_then_commit_one_is_the_source_s : forall c e t k,
+  commit_one_of c e = [ACommitOne t k] ->
+  map action_call (ASend false e :: commit_one_of c e) = Generated.Facts.cycle_bus_calls.
+Proof. exact send_then_commit_one_tie. Qed.
+Print Assumptions C04_send_then_commit_one_is_the_source_s.
